@@ -203,6 +203,48 @@ def witnessUnicode : Cluster :=
       att := [d.att.flatten ++ [mkAttr 16400 1 "n" 23 4 4]],
       heaps := d.heaps ++ [(16400, [[liveRow [i4 5]]])] })] }
 
+/-! R11 (second review, points 3 and 5): witnesses of the open findings C01-MAPPED, C01-MISSINGVAL, of C01-TBLSPC extended to
+pg_database.dattablespace, and the counter-input of the Unicode hole (fixed cases 10..15) -/
+
+def plainDbs : Spec.HeapOf Spec.DbRow := [[tplRow, ⟨{ oid := 5, name := strBytes "postgres" }, 0x0900⟩]]
+
+/-- C01-MAPPED: after `VACUUM FULL pg_class` the catalog lives in base/5/16500 (pg_filenode.map says 1259 ↦ 16500) -/
+def witnessMAPPEDclass : Cluster :=
+  { pgVersion := 16, dbs := plainDbs,
+    content := [(5, { oneTableDb (strBytes "t") [[liveRow [i4 1, some (.short (strBytes "still here"))]]] with relmap := [(1259, 16500)] })] }
+
+/-- C01-MAPPED: after `VACUUM FULL pg_attribute` (1249 ↦ 16501): the table is found, its columns are not -/
+def witnessMAPPEDattr : Cluster :=
+  { pgVersion := 14, dbs := plainDbs,
+    content := [(5, { oneTableDb (strBytes "t") [[liveRow [i4 1, some (.short (strBytes "still here"))]]] with relmap := [(1249, 16501)] })] }
+
+/-- C01-MAPPED: after `VACUUM FULL pg_database` (global map 1262 ↦ 16502): global/1262 does not exist -/
+def witnessMAPPEDglobal : Cluster :=
+  { pgVersion := 15, dbs := plainDbs,
+    content := [(5, oneTableDb (strBytes "t") [[liveRow [i4 1, some (.short (strBytes "still here"))]]])],
+    globalMap := [(1262, 16502)] }
+
+/-- C01-MISSINGVAL: `ALTER TABLE t ADD COLUMN body text DEFAULT 'dflt'` after the first row was written: the first row stores
+one attribute, PostgreSQL returns (1, 'dflt') -/
+def witnessMISSINGVAL : Cluster :=
+  { pgVersion := 14, dbs := plainDbs,
+    content := [(5, { oneTableDb (strBytes "t") [[{ vals := [i4 1, none], natts := 1, infomask := 0x0900 },
+                                                   liveRow [i4 2, some (.short (strBytes "written later"))]]] with
+                      missing := [((16384, 2), strBytes "dflt")] })] }
+
+/-- C01-TBLSPC, database level: `CREATE DATABASE shop TABLESPACE ts` (dattablespace 16700): the whole directory of the
+database is pg_tblspc/16700/PG_14_202107181/16500/ -/
+def witnessDBTBLSPC : Cluster :=
+  { pgVersion := 14,
+    dbs := [[tplRow, ⟨{ oid := 5, name := strBytes "postgres" }, 0x0900⟩, ⟨{ oid := 16500, name := strBytes "shop", tblspc := 16700 }, 0x0900⟩]],
+    content := [(5, oneTableDb (strBytes "t") [[liveRow [i4 1, some (.short (strBytes "x"))]]]),
+                (16500, oneTableDb (strBytes "orders") [[liveRow [i4 2, some (.short (strBytes "elsewhere"))]]])] }
+
+/-- the second review's counter-input to the Unicode repair: table `Āb` (U+0100), filter `āb` (U+0101) -/
+def witnessLatinExtA : Cluster :=
+  { pgVersion := 14, dbs := plainDbs,
+    content := [(5, oneTableDb [0xC4, 0x80, 0x62] [[liveRow [i4 1, some (.short (strBytes "x"))]]])] }
+
 def fixedClusters : List (Cluster × List Options) :=
   [ -- 0: sanity: one table, two columns, one live and one dead row
     (miniCluster 14 true [mkAttr 16384 1 "id" 23 4 4, mkAttr 16384 2 "name" 25 (-1) 4]
@@ -225,10 +267,30 @@ def fixedClusters : List (Cluster × List Options) :=
     (witnessSEG, [{}]),
     (witnessTBLSPC, [{}]),
     -- 9: table filters beyond ASCII case: `-t ÉTÉ` finds `été`, `-t \xe8` finds `caf\xe9` in Go (the Spec is silent)
-    (witnessUnicode, [{ tableFilter := [0xC3, 0x89, 0x54, 0xC3, 0x89] }, { tableFilter := [0xE8] }, { tableFilter := strBytes "T" }]) ]
+    (witnessUnicode, [{ tableFilter := [0xC3, 0x89, 0x54, 0xC3, 0x89] }, { tableFilter := [0xE8] }, { tableFilter := strBytes "T" }]),
+    -- 10: `-t āb` finds table `Āb` in Go (and in the model, which reads Go's Unicode tables); the Spec is silent
+    (witnessLatinExtA, [{ tableFilter := [0xC4, 0x81, 0x62] }, { tableFilter := [0xC4, 0x80] }]),
+    -- 11..13: witnesses of the open finding C01-MAPPED (pg_class, pg_attribute, pg_database relocated)
+    (witnessMAPPEDclass, [{}]),
+    (witnessMAPPEDattr, [{}]),
+    (witnessMAPPEDglobal, [{}]),
+    -- 14: witness of the open finding C01-MISSINGVAL
+    (witnessMISSINGVAL, [{}, { listOnly := true }]),
+    -- 15: C01-TBLSPC at database level
+    (witnessDBTBLSPC, [{}]) ]
 
-def genClusterCase (seed idx size : Nat) : Cluster × List Options :=
+/-- the clusters of the families of area `cluster`: the 16 hand-made ones, then generated ones incl. the R11 classes
+(relocated mapped catalogs, fast defaults, database-level tablespaces) -/
+def genClusterCase11 (seed idx size : Nat) : Cluster × List Options :=
   if idx < fixedClusters.length then fixedClusters.getD idx default else
+  (do let c ← Gen.genCluster size true true
+      let combos ← genCombos c idx (idx % 10 == 9)
+      return (c, combos)).run' (Prng.ofSeed seed idx)
+
+/-- the clusters other areas' families build on (delscan, entry): as before R11 — the first ten hand-made clusters, then
+generated ones WITHOUT the R11 classes (those families know the finding classes of R6 only) -/
+def genClusterCase (seed idx size : Nat) : Cluster × List Options :=
+  if idx < 10 then fixedClusters.getD idx default else
   (do let c ← Gen.genCluster size true
       let combos ← genCombos c idx (idx % 10 == 9)
       return (c, combos)).run' (Prng.ofSeed seed idx)
@@ -288,8 +350,15 @@ def inTPL (c : Cluster) : Bool := !decide (Spec.TemplatesByName c)
 def inA02 (c : Cluster) (combos : List Options) (perDb : Bool) : Bool := anySelectedDb c combos perDb fun o d => !decide (Spec.A02Free d o)
 /-- C01-SEG: some heap has more pages than a segment holds -/
 def inSEG (c : Cluster) : Bool := c.segPages != 0 && c.content.any fun (_, d) => d.heaps.any fun h => h.2.length > c.segPages
-/-- C01-TBLSPC: a relation with a heap file lies outside the default tablespace -/
-def inTBLSPC (c : Cluster) : Bool := c.content.any fun (_, d) => d.cls.live.any fun r => r.tblspc != 0 && (d.heaps.lookup r.filenode).isSome
+/-- C01-TBLSPC: a relation with a heap file lies outside its database's default tablespace, or a database with a directory
+lies outside pg_default -/
+def inTBLSPC (c : Cluster) : Bool :=
+  (c.content.any fun (_, d) => d.cls.live.any fun r => r.tblspc != 0 && (d.heaps.lookup r.filenode).isSome) ||
+  c.dbs.live.any fun db => db.tblspc != 0 && (c.content.lookup db.oid).isSome
+/-- C01-MAPPED: pg_database, or pg_class / pg_attribute of some database, does not live under its oid -/
+def inMAPPED (c : Cluster) : Bool := !decide c.IdentityMapped
+/-- C01-MISSINGVAL: a database that is dumped records a fast default -/
+def inMISSINGVAL (c : Cluster) (combos : List Options) (perDb : Bool) : Bool := anySelectedDb c combos perDb fun _ d => !d.missing.isEmpty
 /-- the table filter lies beyond ASCII case for some dumped database (`GoCase.FilterStable` fails): the Spec is silent -/
 def unicodeFilter (c : Cluster) (combos : List Options) (perDb : Bool) : Bool :=
   anySelectedDb c combos perDb fun o d => !decide (Model.GoCase.FilterStable o d.cls.live)
@@ -297,8 +366,11 @@ def unicodeFilter (c : Cluster) (combos : List Options) (perDb : Bool) : Bool :=
 def findingTags (c : Cluster) (combos : List Options) (perDb : Bool) (tpl : Bool := !perDb) : List String :=
   (if inTPL c ∧ tpl then ["kf:C01-TPL"] else []) ++ (if inA02 c combos perDb then ["kf:A02"] else []) ++
   (if inSEG c then ["kf:C01-SEG"] else []) ++ (if inTBLSPC c then ["kf:C01-TBLSPC"] else []) ++
+  (if inMAPPED c then ["kf:C01-MAPPED"] else []) ++ (if inMISSINGVAL c combos perDb then ["kf:C01-MISSINGVAL"] else []) ++
   (if c.segPages != 0 ∧ !inSEG c then ["seg=unsplit"] else []) ++
-  (if unicodeFilter c combos perDb then ["case=unicode"] else [])
+  (if decide c.MapWF then [] else ["mapwf=no"]) ++
+  -- a table filter / relation name on which Go's Unicode lower-casing is not the Spec's ASCII one (`ÉTÉ`, `Āb` …): Spec silent
+  (if unicodeFilter c combos perDb then ["case=unicode", "spec-silent-name"] else [])
 
 def clusterTags (c : Cluster) (combos : List Options) (spec : String) : List String :=
   let nTables : Nat := (c.content.map fun (_, d) => (d.cls.live.filter fun r => r.kind == 114).length).sum
@@ -318,7 +390,7 @@ def clusterTags (c : Cluster) (combos : List Options) (spec : String) : List Str
   (if spec.length > 200 then ["nt"] else [])
 
 def clusterDumpGen (seed idx size : Nat) : Case :=
-  let (c, combos) := genClusterCase seed idx size
+  let (c, combos) := genClusterCase11 seed idx size
   let files := Spec.filesOf c
   let mismatch := idx % 10 == 9 && idx ≥ fixedClusters.length
   let spec := joinWith sep (combos.map fun o => showDump (Spec.expectedDump specVal c o))
@@ -350,7 +422,7 @@ def clusterFilesEval (args : List String) : String :=
   | _ => "bad-args"
 
 def clusterFilesGen (seed idx size : Nat) : Case :=
-  let (c, combos) := genClusterCase seed idx size
+  let (c, combos) := genClusterCase11 seed idx size
   let files := Spec.filesOf c
   let mismatch := idx % 10 == 9 && idx ≥ fixedClusters.length
   let dbs := c.dbs.live.filter fun db => (c.content.lookup db.oid).isSome
@@ -513,6 +585,8 @@ def genROps (c : Cluster) : Gen (List ROp) := do
       for r in rels.take 6 do
         if ← Gen.prob 1 2 then ops := ops.push (.tb db.oid r.name)
         if ← Gen.prob 1 3 then ops := ops.push (.tb db.oid (if r.name.any (· ≥ 128) then flipCaseU r.name else flipCase r.name))
+        -- a name with cased code points beyond ASCII: also asked for in Go's own lower-casing (`Āb` → `āb`: EqualFold finds it)
+        if r.name.any (· ≥ 128) ∧ Model.GoCase.goToLower r.name != r.name then ops := ops.push (.tb db.oid (Model.GoCase.goToLower r.name))
       ops := ops.push (.tb db.oid (strBytes "nosuchtable"))
       -- queries: on relations with a heap, projections of ≤ 3 columns incl. unknown names, limits 0 … n+1
       let heapRels := rels.filter fun r => (d.heaps.lookup r.filenode).isSome
@@ -589,7 +663,7 @@ def remoteSpec (c : Cluster) (ops : List ROp) : Option String := do
 
 def remoteGen (seed idx size : Nat) : Case :=
   -- the hand-made clusters of `fixedClusters` (sanity, former and open findings) first, then generated ones
-  let (c, ops) := (do let c ← (if idx < fixedClusters.length then pure (fixedClusters.getD idx default).1 else Gen.genCluster size true)
+  let (c, ops) := (do let c ← (if idx < fixedClusters.length then pure (fixedClusters.getD idx default).1 else Gen.genCluster size true true)
                       let ops ← genROps c
                       return (c, ops)).run' (Prng.ofSeed seed idx)
   let files := Spec.filesOf c
@@ -776,7 +850,7 @@ def genCliFlags (c : Cluster) (idx : Nat) : Gen (Flags × Bool) := do
 
 def cliGen (seed idx size : Nat) : Case :=
   let (c, f, pgdata, toks) := (do
-      let c ← Gen.genCluster size true
+      let c ← Gen.genCluster size true true
       let (f, pgdata) ← genCliFlags c idx
       let toks ← renderFlags f
       return (c, f, pgdata, toks)).run' (Prng.ofSeed seed idx)
@@ -797,7 +871,7 @@ def repeatFlags : String := "json=1,sql=1,csv=1,files=1,rall=1,rtables=1,rsum=1,
 
 /-- every generated cluster is dumped 20× through every output path; all repetitions must be byte-identical -/
 def repeatGen (seed idx size : Nat) : Case :=
-  let c := (Gen.genCluster size true).run' (Prng.ofSeed seed idx)
+  let c := (Gen.genCluster size true true).run' (Prng.ofSeed seed idx)
   let files := Spec.filesOf c
   let multi := c.content.any fun (_, d) => (d.cls.live.filter fun r => r.filenode != 0).length ≥ 2
   let collide := c.content.any fun (_, d) =>
@@ -828,7 +902,7 @@ def orderModel (files : List (Bytes × Bytes)) : String :=
   showM id r
 
 def orderGen (seed idx size : Nat) : Case :=
-  let c := (Gen.genCluster size true).run' (Prng.ofSeed seed idx)
+  let c := (Gen.genCluster size true true).run' (Prng.ofSeed seed idx)
   let files := Spec.filesOf c
   { tags := ["nt"], model := orderModel files, spec := "-", args := files.map showFile }
 
@@ -836,7 +910,7 @@ def order : Family := { name := "order", gen := orderGen, eval := fun args => or
 
 /-- 2..32 goroutines run a mix of entry points on shared input buffers; results must equal the sequential ones -/
 def concurrentGen (seed idx size : Nat) : Case :=
-  let (c, n) := (do let c ← Gen.genCluster size true
+  let (c, n) := (do let c ← Gen.genCluster size true true
                     let n ← Gen.oneOf [2, 3, 4, 8, 16, 32]
                     return (c, n)).run' (Prng.ofSeed seed idx)
   let files := Spec.filesOf c
@@ -846,7 +920,7 @@ def concurrent : Family := { name := "concurrent", gen := concurrentGen, eval :=
 
 /-- the CLI's single-file listings repeated in separate processes -/
 def repeatCliGen (seed idx size : Nat) : Case :=
-  let c := (Gen.genCluster (size + 1) true).run' (Prng.ofSeed seed idx)
+  let c := (Gen.genCluster (size + 1) true true).run' (Prng.ofSeed seed idx)
   let files := Spec.filesOf c
   -- the database with the most relations
   let best := (c.content.map fun (oid, d) => ((d.cls.live.filter fun r => r.filenode != 0).length, oid)).foldl (fun a b => if b.1 > a.1 then b else a) (0, 1)
@@ -890,7 +964,7 @@ def catFields : List (Nat × Nat) :=
 
 def catmutGen (seed idx size : Nat) : Case :=
   let (ver, dbF, clsF, attF, heap) : Nat × Bytes × Bytes × Bytes × Option Bytes := (do
-      let c ← Gen.genCluster (min size 1) true
+      let c ← Gen.genCluster (min size 1) true true
       let files : List (Bytes × Bytes) := Spec.filesOf c
       let find (suffix : String) : Bytes :=
         match files.find? (fun (f : Bytes × Bytes) => (String.fromUTF8! (ByteArray.mk f.1.toArray)).endsWith suffix && f.2.length > 0) with
